@@ -2,60 +2,75 @@ import PoryProofs.StmtParseErr
 import PoryProofs.Properties.C15b
 /-
 P1 (statement grammar) — "parse ∘ print = elaborate" for script bodies: the parser model accepts the
-documented statement grammar and builds exactly the documented tree; for the documented violations it
-reports the documented located error.
+documented statement grammar and builds exactly the documented tree (and implicit data); for the documented
+violations it reports the documented located error.
 
-About the model `Pory.Parser.parseBlockStatement` and the 9 other functions of the mutually recursive
-statement block it reaches on this grammar (`parseStatement`, `parseSwitchBlockStatement`,
-`parseConditionExpression`, `parseElifs`, `parseIfStatement`, `parseWhileStatement`, `parseDoWhileStatement`,
-`parseSwitchCases`, `parseSwitchStatement`; PoryModel/ParserStmts.lean = the statement parser of
-/repo/parser/parser.go).
+About the model `Pory.Parser.parseBlockStatement` and ALL 13 functions of the mutually recursive statement
+block (`parseStatement`, `parseBlockStatement`, `parseSwitchBlockStatement`, `parseConditionExpression`,
+`parseElifs`, `parseIfStatement`, `parseWhileStatement`, `parseDoWhileStatement`, `parseSwitchCases`,
+`parseSwitchStatement`, `parsePoryswitchStatement`, `parsePoryswitchStatementCases`,
+`parsePoryswitchStatements`; PoryModel/ParserStmts.lean = the statement parser of /repo/parser/parser.go).
 
 COVERED GRAMMAR (`StmtG.SStmt`, PoryProofs/StmtGrammar.lean; every constructor carries the tokens it is
 printed with — arbitrary records, any positions / literals, `SWF` fixes the token types only):
-    command      `name ( a0 , a1 , … )` (arguments `C10b.ArgOK`: plain tokens, balanced parentheses),
-                 `name ( )`, `name`
+    command      `name ( a0 , a1 , … )` — arguments of plain tokens and balanced parentheses (`cmd`,
+                 `C10b.ArgOK`), or additionally string literals, typed strings `ascii"…"` and
+                 `moves( step [* N] … )` (`cmdI`, `C10c.argEOK`); `name ( )`; `name`
     label        `name :`, `name ( global ) :`, `name ( local ) :`
     if           `if ( c ) { … } [elif ( c ) { … }]* [else { … }]`
     while        `while ( c ) { … }`, `while { … }`
     do-while     `do { … } while ( c )`
     break, continue
-    switch       `switch ( var ( operand… ) ) { [case v… : …]* [default : …]* }`
-  with conditions `c : C02P.SOr` (`||` / `&&` / `!( )` / parentheses over all non-autovar leaves
-  `[!]flag(X)`, `flag(X) ==|!= TRUE|FALSE`, the same for `defeated`, `[!]var(X)`, `var(X) op N`), nested to
-  any depth.
-NOT COVERED (Stage 4 of the task; nothing below says anything about them): auto-var leaves in conditions
-(C11b has the leaf), `switch` on an auto-var command, `value(…)` / multi-token comparison values, string
-literals / `format()` / `moves()` in command arguments (implicit data), `poryswitch` statements.
+    switch       `switch ( var ( operand… ) ) { [case v… : …]* [default : …]* }`,
+                 `switch ( name ( a0 , … ) ) { … }` on a configured auto-var command
+    poryswitch   `poryswitch ( X ) { [key : stmt | key { … }]* }`
+  nested to any depth, with conditions `c : StmtG.SCond`: an expression `C02P.SOr` (`||` / `&&` / `!( )` /
+  parentheses over all non-autovar leaves `[!]flag(X)`, `flag(X) ==|!= TRUE|FALSE`, the same for `defeated`,
+  `[!]var(X)`, `var(X) op N`), or a single auto-var leaf `[!] name ( a0 , … ) [op N]` (C11b).
+NOT COVERED (nothing below says anything about them): auto-var leaves inside `&&` / `||` / parentheses,
+`value(…)` and multi-token comparison values / operands, `format( … )` arguments, string / `moves` arguments
+inside the command of an auto-var condition or switch operand and the bare / `name()` forms of such a
+command, a poryswitch case `key :` without a statement.
 
-REFERENCE ELABORATION (`StmtG.elabL`, packaged as `StmtG.elabE` / `StmtG.elaborate` on a `StmtG.Ctx` =
-constants, nextSid, nextCmdId, breakStack, continueStack): command ids and scope ids in source order (a loop
-/ switch takes its id before its body), `break` ↦ innermost enclosing loop or switch, `continue` ↦ innermost
-enclosing loop, conditions ↦ `C02P.treeOr`, case values ↦ the space-joined substituted literals; `.error` =
-the located error of the first violation in source order, and these are exactly (`StmtG.elabL_error`)
-`break` outside, `continue` outside, `continue` not directly followed by `}`, duplicate `case`, second
-`default`, `switch` without cases.
+REFERENCE ELABORATION (`StmtG.elabL`, packaged as `StmtG.elabE` / `StmtG.elaborate env sn` on a `StmtG.Ctx` =
+constants, nextSid, nextCmdId, breakStack, continueStack; `elab` is a Lean keyword): command ids and scope
+ids in source order (a loop / switch takes its scope id before anything inside it; the command of an auto-var
+condition takes its id where the condition stands; ALL cases of a poryswitch take ids, the selected case —
+newest entry for the `-s` value, else `_` — is spliced in place), `break` ↦ innermost enclosing loop or
+switch, `continue` ↦ innermost enclosing loop, conditions ↦ `C02P.treeOr` / `C11b.autoLeafT`, case values ↦
+the space-joined substituted literals, string / `moves` arguments ↦ EMPTY argument + an `ImpText` /
+`ImpMovement` (command id, argument position, terminated text / expanded steps, script name) in source
+order; `.error` = the located error of the first violation in source order, and these are exactly
+(`StmtG.Violation`, `violations_documented`): `break` outside, `continue` outside, `continue` not directly
+followed by `}`, duplicate `case`, second `default`, `switch` without cases; auto-var command not configured
+(as condition / as switch operand), configured argument position addressing no argument; `poryswitch`
+without any `-s`, with an undefined switch, without a matching case (the last three only with environment
+errors on).
 
 PROVED (every `env`, script name, start token, surrounding state `s`, tail `rest`, fuel ≥ `needL b`, and
 `needL b ≤ 2 * tokens + 1`):
 * `parse_block_elab`   : `parseBlockStatement … [] {}` on `printStmts b ++ rb :: rest` (`SWF b`, `rb` a `}`)
-                         = the reference elaboration: `.ok ((stmts, {}), s with window `rb :: rest` and the
+                         = the reference elaboration: `.ok ((stmts, imp), s with window `rb :: rest` and the
                          two counters of the elaboration)` — stacks, constants, texts, … untouched — or
                          `.error e` with the elaboration's located error;
-* `parse_block_print`  : the acceptance half as asked in the task (`elaborate … = some (stmts, ctx')`);
+* `parse_block_print`  : the acceptance half as asked in the task (`elaborate … = some (stmts, imp, ctx')`);
 * `parse_block_reject` : the rejection half (`elabE … = .error e`); `violations_documented`: `e` is one of
-                         the six documented errors; `break_outside_rejected`, `continue_outside_rejected`,
+                         the documented errors; `break_outside_rejected`, `continue_outside_rejected`,
                          `continue_not_last_rejected`, `duplicate_case`, `second_default`, `empty_switch`;
 * `parse_block_print_tokens` : the same with the fuel bound in tokens (`2 * tokens + 1 ≤ fuel`; the model's
                          `ParseProgram` starts with `4 * tokens + 50`);
 * `parse_script_print` : a whole `script [(global|local)] Name { … }` statement through
-                         `parseScriptStatement`.
+                         `parseScriptStatement` (implicit data recorded under the script's name).
 Nothing is partial for the covered grammar.
 
 BEHAVIOUR WORTH KNOWING (model = Go, checked against /repo/parser/parser.go):
 * `continue` must be followed by `}`: as the last statement of a switch case that is followed by another
-  `case` / `default` it is rejected ("'continue' must be the last statement in block scope") although it is
-  the last statement of its case (`continue_in_nonfinal_case` below).
+  `case` / `default` (or of a `key :` poryswitch case followed by another key) it is rejected ("'continue'
+  must be the last statement in block scope") although it is the last statement of its case
+  (`continue_in_nonfinal_case` below).
+* Every case of a `poryswitch` statement is parsed completely: the cases that are not selected consume command
+  ids / scope ids, and a violation inside them is reported; their implicit data is dropped.
+* In `switch (cmd(…))` the scope id of the switch is taken BEFORE the command is read, the command id after.
 * The token between the `)` of `var( … )` and `{` in `switch (var(X)) {` is skipped unchecked
   (`SwitchParse.OperandAt.var`); the grammar here requires it to be `)`.
 * A case value may be empty (`case :`); the stored token is then the `:` with an empty literal.
@@ -68,48 +83,51 @@ theorem parse_block_elab (env : Env) (sn : String) (startTok : Tok) (b : List SS
     (rest : List Tok) (hwf : SWF b) (hrb : rb.type = .RBRACE) (s : PState)
     (htoks : s.toks = printStmts b ++ rb :: rest) (fuel : Nat) (hfuel : needL b ≤ fuel) :
     (parseBlockStatement env sn startTok fuel [] {}).run s =
-      match elabE env (ctxOf s) b with
-      | .ok (stmts, c') =>
-        .ok ((stmts, {}), { s with toks := rb :: rest, nextSid := c'.nextSid, nextCmdId := c'.nextCmdId })
+      match elabE env sn (ctxOf s) b with
+      | .ok (stmts, imp, c') =>
+        .ok ((stmts, imp), { s with toks := rb :: rest, nextSid := c'.nextSid, nextCmdId := c'.nextCmdId })
       | .error e => .error e :=
   StmtG.parse_block_elab env sn startTok b rb rest hwf hrb s htoks fuel hfuel
 
-/-- **P1, acceptance: parse ∘ print = elaborate.** The parser returns the elaborated statements and no
-implicit data, stops on the closing `}`, advances the two counters as the elaboration does; the stacks of the
-resulting context are those at entry and nothing else in the state changes. -/
+/-- **P1, acceptance: parse ∘ print = elaborate.** The parser returns the elaborated statements and their
+implicit data (the texts / movements of command arguments, in source order), stops on the closing `}`,
+advances the two counters as the elaboration does; the stacks of the resulting context are those at entry and
+nothing else in the state changes. -/
 theorem parse_block_print (env : Env) (sn : String) (startTok : Tok) (b : List SStmt) (rb : Tok)
     (rest : List Tok) (hwf : SWF b) (hrb : rb.type = .RBRACE) (s : PState)
     (htoks : s.toks = printStmts b ++ rb :: rest) (fuel : Nat) (hfuel : needL b ≤ fuel)
-    (stmts : List Stmt) (c' : Ctx) (helab : elaborate env (ctxOf s) b = some (stmts, c')) :
+    (stmts : List Stmt) (imp : ImpData) (c' : Ctx)
+    (helab : elaborate env sn (ctxOf s) b = some (stmts, imp, c')) :
     (parseBlockStatement env sn startTok fuel [] {}).run s =
-      .ok ((stmts, {}), { s with toks := rb :: rest, nextSid := c'.nextSid, nextCmdId := c'.nextCmdId }) ∧
+      .ok ((stmts, imp), { s with toks := rb :: rest, nextSid := c'.nextSid, nextCmdId := c'.nextCmdId }) ∧
     c'.breakStack = s.breakStack ∧ c'.continueStack = s.continueStack :=
-  StmtG.parse_block_print env sn startTok b rb rest hwf hrb s htoks fuel hfuel stmts c' helab
+  StmtG.parse_block_print env sn startTok b rb rest hwf hrb s htoks fuel hfuel stmts imp c' helab
 
 /-- … with the fuel bound stated in tokens. -/
 theorem parse_block_print_tokens (env : Env) (sn : String) (startTok : Tok) (b : List SStmt) (rb : Tok)
     (rest : List Tok) (hwf : SWF b) (hrb : rb.type = .RBRACE) (s : PState)
     (htoks : s.toks = printStmts b ++ rb :: rest) (fuel : Nat)
     (hfuel : 2 * (printStmts b).length + 1 ≤ fuel)
-    (stmts : List Stmt) (c' : Ctx) (helab : elaborate env (ctxOf s) b = some (stmts, c')) :
+    (stmts : List Stmt) (imp : ImpData) (c' : Ctx)
+    (helab : elaborate env sn (ctxOf s) b = some (stmts, imp, c')) :
     (parseBlockStatement env sn startTok fuel [] {}).run s =
-      .ok ((stmts, {}), { s with toks := rb :: rest, nextSid := c'.nextSid, nextCmdId := c'.nextCmdId }) :=
+      .ok ((stmts, imp), { s with toks := rb :: rest, nextSid := c'.nextSid, nextCmdId := c'.nextCmdId }) :=
   (StmtG.parse_block_print env sn startTok b rb rest hwf hrb s htoks fuel (fuel_of_tokens b fuel hfuel)
-    stmts c' helab).1
+    stmts imp c' helab).1
 
 /-- **P1, rejection.** The parser fails with the located error of the first violation. -/
 theorem parse_block_reject (env : Env) (sn : String) (startTok : Tok) (b : List SStmt) (rb : Tok)
     (rest : List Tok) (hwf : SWF b) (hrb : rb.type = .RBRACE) (s : PState)
     (htoks : s.toks = printStmts b ++ rb :: rest) (fuel : Nat) (hfuel : needL b ≤ fuel)
-    (e : PFail) (helab : elabE env (ctxOf s) b = .error e) :
+    (e : PFail) (helab : elabE env sn (ctxOf s) b = .error e) :
     (parseBlockStatement env sn startTok fuel [] {}).run s = .error e :=
   StmtG.parse_block_reject env sn startTok b rb rest hwf hrb s htoks fuel hfuel e helab
 
-/-- `elaborate = none` ⇒ the parser fails, with one of the six documented located errors. -/
+/-- `elaborate = none` ⇒ the parser fails, with one of the documented located errors. -/
 theorem parse_block_reject_none (env : Env) (sn : String) (startTok : Tok) (b : List SStmt) (rb : Tok)
     (rest : List Tok) (hwf : SWF b) (hrb : rb.type = .RBRACE) (s : PState)
     (htoks : s.toks = printStmts b ++ rb :: rest) (fuel : Nat) (hfuel : needL b ≤ fuel)
-    (helab : elaborate env (ctxOf s) b = none) :
+    (helab : elaborate env sn (ctxOf s) b = none) :
     ∃ e, Violation e ∧ (parseBlockStatement env sn startTok fuel [] {}).run s = .error e := by
   obtain ⟨e, he, hr⟩ :=
     StmtG.parse_block_reject_none env sn startTok b rb rest hwf hrb s htoks fuel hfuel helab
@@ -118,94 +136,94 @@ theorem parse_block_reject_none (env : Env) (sn : String) (startTok : Tok) (b : 
   split at he
   · rename_i e' h1
     cases err_inj he
-    exact elabL_error env b _ _ _ _ _ _ _ h1
+    exact elabL_error env _ b _ _ _ _ _ _ _ h1
   · cases he
 
-/-- Every error of the reference elaboration is one of the six documented violations. -/
-theorem violations_documented (env : Env) (c : Ctx) (b : List SStmt) (e : PFail)
-    (h : elabE env c b = .error e) :
+/-- Every error of the reference elaboration is one of the documented violations. -/
+theorem violations_documented (env : Env) (sn : String) (c : Ctx) (b : List SStmt) (e : PFail)
+    (h : elabE env sn c b = .error e) :
     Violation e := by
   unfold elabE at h
   split at h
   · rename_i e' h1
     cases err_inj h
-    exact elabL_error env b _ _ _ _ _ _ _ h1
+    exact elabL_error env _ b _ _ _ _ _ _ _ h1
   · cases h
 
 /-- A whole `script [(global|local)] Name { body }` statement. -/
 theorem parse_script_print (env : Env) (fuel : Nat) (s : PState) (kw : Tok) (md : TopParse.Mod)
     (name lb : Tok) (b : List SStmt) (rb : Tok) (rest : List Tok) (hmd : md.WF)
     (hname : name.type = .IDENT) (hlb : lb.type = .LBRACE) (hwf : SWF b) (hrb : rb.type = .RBRACE)
-    (hfuel : needL b ≤ fuel) (stmts : List Stmt) (c' : Ctx)
-    (helab : elaborate env (ctxOf s) b = some (stmts, c')) :
+    (hfuel : needL b ≤ fuel) (stmts : List Stmt) (imp : ImpData) (c' : Ctx)
+    (helab : elaborate env name.lit (ctxOf s) b = some (stmts, imp, c')) :
     (parseScriptStatement env fuel).run
         (st s (kw :: (md.toks ++ name :: lb :: (printStmts b ++ rb :: rest)))) =
       .ok (({ tok := kw, name := name.lit, body := stmts,
-              scope := md.scope (defaultScopeOf "parseScriptStatement") }, {}),
+              scope := md.scope (defaultScopeOf "parseScriptStatement") }, imp),
            { s with toks := rb :: rest, nextSid := c'.nextSid, nextCmdId := c'.nextCmdId }) := by
   have h := (StmtG.parse_block_print env name.lit lb b rb rest hwf hrb
-    (st s (printStmts b ++ rb :: rest)) rfl fuel hfuel stmts c' helab).1
+    (st s (printStmts b ++ rb :: rest)) rfl fuel hfuel stmts imp c' helab).1
   exact C15b.parse_script_statement_gen env fuel s kw md name lb _ hmd hname hlb _ _ h
 
-/-! ### the six violations -/
+/-! ### the six violations of the statement grammar -/
 
 /-- `break` at the top level of a block outside every loop / switch (what precedes it being fine). -/
 theorem break_outside_rejected (env : Env) (sn : String) (startTok : Tok) (pre post : List SStmt)
-    (t rb : Tok) (rest : List Tok) (s : PState) (fuel : Nat) (a : List Stmt) (i1 j1 : Nat)
+    (t rb : Tok) (rest : List Tok) (s : PState) (fuel : Nat) (a : List Stmt) (m1 : ImpData) (i1 j1 : Nat)
     (hwf : SWF (pre ++ .brk t :: post)) (hrb : rb.type = .RBRACE)
     (htoks : s.toks = printStmts (pre ++ .brk t :: post) ++ rb :: rest)
     (hfuel : needL (pre ++ .brk t :: post) ≤ fuel) (hB : s.breakStack = [])
-    (hpre : elabL env (substC s.constants) [] s.continueStack false pre s.nextSid s.nextCmdId = .ok (a, i1, j1)) :
+    (hpre : elabL env sn (substC s.constants) [] s.continueStack false pre s.nextSid s.nextCmdId = .ok (a, m1, i1, j1)) :
     (parseBlockStatement env sn startTok fuel [] {}).run s =
       .error (newParseError t "'break' statement outside of any break-able scope") :=
-  StmtG.break_outside_rejected env sn startTok pre post t rb rest s fuel a i1 j1 hwf hrb htoks hfuel hB hpre
+  StmtG.break_outside_rejected env sn startTok pre post t rb rest s fuel a m1 i1 j1 hwf hrb htoks hfuel hB hpre
 
 theorem continue_outside_rejected (env : Env) (sn : String) (startTok : Tok) (pre post : List SStmt)
-    (t rb : Tok) (rest : List Tok) (s : PState) (fuel : Nat) (a : List Stmt) (i1 j1 : Nat)
+    (t rb : Tok) (rest : List Tok) (s : PState) (fuel : Nat) (a : List Stmt) (m1 : ImpData) (i1 j1 : Nat)
     (hwf : SWF (pre ++ .cont t :: post)) (hrb : rb.type = .RBRACE)
     (htoks : s.toks = printStmts (pre ++ .cont t :: post) ++ rb :: rest)
     (hfuel : needL (pre ++ .cont t :: post) ≤ fuel) (hC : s.continueStack = [])
-    (hpre : elabL env (substC s.constants) s.breakStack [] false pre s.nextSid s.nextCmdId = .ok (a, i1, j1)) :
+    (hpre : elabL env sn (substC s.constants) s.breakStack [] false pre s.nextSid s.nextCmdId = .ok (a, m1, i1, j1)) :
     (parseBlockStatement env sn startTok fuel [] {}).run s =
       .error (newParseError t "'continue' statement outside of any continue-able scope") :=
-  StmtG.continue_outside_rejected env sn startTok pre post t rb rest s fuel a i1 j1 hwf hrb htoks hfuel hC hpre
+  StmtG.continue_outside_rejected env sn startTok pre post t rb rest s fuel a m1 i1 j1 hwf hrb htoks hfuel hC hpre
 
 theorem continue_not_last_rejected (env : Env) (sn : String) (startTok : Tok) (pre post : List SStmt)
-    (t rb : Tok) (rest : List Tok) (s : PState) (fuel : Nat) (a : List Stmt) (i1 j1 : Nat) (x : SStmt)
+    (t rb : Tok) (rest : List Tok) (s : PState) (fuel : Nat) (a : List Stmt) (m1 : ImpData) (i1 j1 : Nat) (x : SStmt)
     (hwf : SWF (pre ++ .cont t :: x :: post)) (hrb : rb.type = .RBRACE)
     (htoks : s.toks = printStmts (pre ++ .cont t :: x :: post) ++ rb :: rest)
     (hfuel : needL (pre ++ .cont t :: x :: post) ≤ fuel) (k : Nat) (C' : List Nat)
     (hC : s.continueStack = k :: C')
-    (hpre : elabL env (substC s.constants) s.breakStack (k :: C') false pre s.nextSid s.nextCmdId =
-      .ok (a, i1, j1)) :
+    (hpre : elabL env sn (substC s.constants) s.breakStack (k :: C') false pre s.nextSid s.nextCmdId =
+      .ok (a, m1, i1, j1)) :
     (parseBlockStatement env sn startTok fuel [] {}).run s =
       .error (newParseError t "'continue' must be the last statement in block scope") :=
-  StmtG.continue_not_last_rejected env sn startTok pre post t rb rest s fuel a i1 j1 x hwf hrb htoks hfuel
+  StmtG.continue_not_last_rejected env sn startTok pre post t rb rest s fuel a m1 i1 j1 x hwf hrb htoks hfuel
     k C' hC hpre
 
 /-- A `case` whose value was met before in the same switch: range error from the `case` token to its `:`. -/
-theorem duplicate_case (env : Env) (σ : String → String) (B C : List Nat) (c : Tok) (vs : List Tok) (colon : Tok)
+theorem duplicate_case (env : Env) (sn : String) (σ : String → String) (B C : List Nat) (c : Tok) (vs : List Tok) (colon : Tok)
     (body : List SStmt) (r : List SCase) (seen : List String) (hd : Bool) (i j : Nat)
     (h : caseValue σ vs ∈ seen) :
-    elabCases env σ B C (.case c vs colon body :: r) seen hd i j =
+    elabCases env sn σ B C (.case c vs colon body :: r) seen hd i j =
       .error (newRangeParseError c colon
         s!"duplicate switch cases detected for case '{caseValue σ vs}'") :=
-  elabCases_dup env σ B C c vs colon body r seen hd i j h
+  elabCases_dup env sn σ B C c vs colon body r seen hd i j h
 
 /-- A second `default`: located on the `default` token. -/
-theorem second_default (env : Env) (σ : String → String) (B C : List Nat) (d colon : Tok)
+theorem second_default (env : Env) (sn : String) (σ : String → String) (B C : List Nat) (d colon : Tok)
     (body : List SStmt) (r : List SCase) (seen : List String) (i j : Nat) :
-    elabCases env σ B C (.dflt d colon body :: r) seen true i j =
+    elabCases env sn σ B C (.dflt d colon body :: r) seen true i j =
       .error (newParseError d
         "multiple `default` cases found in switch statement. Only one `default` case is allowed") :=
-  elabCases_second_default env σ B C d colon body r seen i j
+  elabCases_second_default env sn σ B C d colon body r seen i j
 
 /-- A `switch` without cases: range error from the `switch` token to the closing `}`. -/
-theorem empty_switch (env : Env) (σ : String → String) (B C : List Nat) (nx : Bool) (sw lp v lp2 : Tok)
+theorem empty_switch (env : Env) (sn : String) (σ : String → String) (B C : List Nat) (nx : Bool) (sw lp v lp2 : Tok)
     (ops : List Tok) (rp2 rp lb rb : Tok) (i j : Nat) :
-    elabS env σ B C nx (.switch_ sw lp v lp2 ops rp2 rp lb [] rb) i j =
+    elabS env sn σ B C nx (.switch_ sw lp v lp2 ops rp2 rp lb [] rb) i j =
       .error (newRangeParseError sw rb "switch statement has no cases or default case") :=
-  elabS_empty_switch env σ B C nx sw lp v lp2 ops rp2 rp lb rb i j
+  elabS_empty_switch env sn σ B C nx sw lp v lp2 ops rp2 rp lb rb i j
 
 /-! ### non-vacuity -/
 section Example
@@ -216,7 +234,7 @@ private def lb : Tok := tk .LBRACE "{"
 private def rb : Tok := tk .RBRACE "}"
 private def colon : Tok := tk .COLON ":"
 private def z : Nat → TPos := fun _ => {}
-private def cond (lf : Leaf) : SOr := .one (.one (.leaf lf))
+private def cond (lf : Leaf) : SCond := .plain (.one (.one (.leaf lf)))
 
 /-- `if (flag(A)) { foo } elif (var(X) == 1) { bar(1, N) } else { baz() }` -/
 def exIf : SStmt :=
@@ -274,8 +292,9 @@ def exAst : List Stmt :=
 
 theorem exBody_wf : SWF exBody := by decide
 
-theorem exBody_elab (env : Env) :
-    elaborate env (ctxOf exState) exBody = some (exAst, { ctxOf exState with nextSid := 6, nextCmdId := 14 }) := by
+theorem exBody_elab (env : Env) (sn : String) :
+    elaborate env sn (ctxOf exState) exBody =
+      some (exAst, {}, { ctxOf exState with nextSid := 6, nextCmdId := 14 }) := by
   rfl
 
 /-- On the example the parser returns the documented tree, stops on the `}`, has handed out the scope ids
@@ -284,7 +303,7 @@ example (env : Env) (sn : String) (startTok : Tok) (fuel : Nat) (hf : 200 ≤ fu
     (parseBlockStatement env sn startTok fuel [] {}).run exState =
       .ok ((exAst, {}), { exState with toks := [rb], nextSid := 6, nextCmdId := 14 }) :=
   (parse_block_print env sn startTok exBody rb [] exBody_wf rfl exState rfl fuel
-    (Nat.le_trans (by decide) hf) exAst _ (exBody_elab env)).1
+    (Nat.le_trans (by decide) hf) exAst {} _ (exBody_elab env sn)).1
 
 /-- The same body inside `script Main { … }`. -/
 example (env : Env) (fuel : Nat) (hf : 200 ≤ fuel) :
@@ -293,7 +312,7 @@ example (env : Env) (fuel : Nat) (hf : 200 ≤ fuel) :
       .ok (({ tok := tk .SCRIPT "script", name := "Main", body := exAst, scope := .GLOBAL }, {}),
            { exState with toks := [rb], nextSid := 6, nextCmdId := 14 }) :=
   parse_script_print env fuel exState (tk .SCRIPT "script") .absent (tk .IDENT "Main") lb exBody rb []
-    trivial rfl rfl exBody_wf rfl (Nat.le_trans (by decide) hf) exAst _ (exBody_elab env)
+    trivial rfl rfl exBody_wf rfl (Nat.le_trans (by decide) hf) exAst {} _ (exBody_elab env _)
 
 /-- `foo  break` at the top level of a script body: "'break' statement outside of any break-able scope",
 located on the `break` token. -/
@@ -303,7 +322,7 @@ example (env : Env) (sn : String) (startTok : Tok) (fuel : Nat) (hf : 10 ≤ fue
       .error (.err { lineStart := 2, lineEnd := 2, charStart := 4, utf8Start := 4, charEnd := 9, utf8End := 9,
                      msg := "'break' statement outside of any break-able scope" }) :=
   break_outside_rejected env sn startTok [.cmd0 (tk .IDENT "foo")] [] (tkp ⟨2, 4, 4, 2, 9, 9⟩ .BREAK "break")
-    rb [] _ fuel _ _ _ (by decide) rfl rfl (Nat.le_trans (by decide) hf) rfl rfl
+    rb [] _ fuel _ _ _ _ (by decide) rfl rfl (Nat.le_trans (by decide) hf) rfl rfl
 
 /-- `continue` as the last statement of a switch case that is followed by another case is rejected
 (model = Go): `while { switch (var(V)) { case 1: continue  case 2: foo } }`. -/
@@ -321,7 +340,7 @@ theorem continue_in_nonfinal_case (env : Env) (sn : String) (startTok : Tok) (fu
     (Nat.le_trans (by decide) hf) _ rfl
 
 /-- … while in the final case it is accepted. -/
-example : ∃ r, elaborate {} {} [.whileInf (tk .WHILE "while") lb
+example : ∃ r, elaborate {} "S" {} [.whileInf (tk .WHILE "while") lb
     [.switch_ (tk .SWITCH "switch") lp (tk .VAR "var") lp [tk .IDENT "V"] rp rp lb
       [.case (tk .CASE "case") [tk .INT "2"] colon [.cmd0 (tk .IDENT "foo")],
        .case (tk .CASE "case") [tk .INT "1"] colon [.cont (tk .CONTINUE "continue")]] rb] rb] = some r :=
@@ -376,7 +395,7 @@ example (sn : String) (startTok : Tok) (fuel : Nat) (hf : 40 ≤ fuel) :
       .ok (([cmdS 1 "bar" [], cmdS 2 "baz" []], {}),
         { toks := [rb], eof := tk .EOF "", nextCmdId := 4 }) :=
   (parse_block_print exEnv sn startTok exPory rb [] (by decide) rfl _ rfl fuel
-    (Nat.le_trans (by decide) hf) _ { nextCmdId := 4 } rfl).1
+    (Nat.le_trans (by decide) hf) _ {} { nextCmdId := 4 } rfl).1
 
 /-- A violation in a case that is NOT selected is reported all the same:
 `poryswitch (GAME) { RUBY: break  _: foo }` with `GAME=SAPPHIRE`. -/
@@ -419,7 +438,7 @@ example (sn : String) (startTok : Tok) :
             [.colon (tk .IDENT "RUBY") colon (.cmd0 (tk .IDENT "foo"))] rb] ++ [rb],
           eof := tk .EOF "" } =
       .ok (([], {}), { toks := [rb], eof := tk .EOF "", nextCmdId := 1 }) :=
-  (parse_block_print { envErrors := false } sn startTok _ rb [] (by decide) rfl _ rfl 40 (by decide) _
+  (parse_block_print { envErrors := false } sn startTok _ rb [] (by decide) rfl _ rfl 40 (by decide) _ {}
     { nextCmdId := 1 } rfl).1
 
 /-! `switch` on an auto-var command: `switch (specialvar(VAR_RESULT, GetFoo)) { case 1: foo }` with
@@ -444,7 +463,7 @@ example (sn : String) (startTok : Tok) (fuel : Nat) (hf : 40 ≤ fuel) :
                [(tk .INT "1", false, [cmdS 6 "foo" []])]], {}),
         { toks := [rb], eof := tk .EOF "", nextSid := 3, nextCmdId := 7 }) :=
   (parse_block_print exEnvAuto sn startTok exSwitchA rb [] (by decide) rfl _ rfl fuel
-    (Nat.le_trans (by decide) hf) _ { nextSid := 3, nextCmdId := 7 } rfl).1
+    (Nat.le_trans (by decide) hf) _ {} { nextSid := 3, nextCmdId := 7 } rfl).1
 
 /-- Not a configured command / a configured position that addresses no argument. -/
 example (sn : String) (startTok : Tok) :
@@ -460,6 +479,78 @@ example (sn : String) (startTok : Tok) :
       .error (newRangeParseError (tkp ⟨3, 8, 8, 3, 18, 18⟩ .IDENT "specialvar") rp
         "auto-var command specialvar has an arg position of 2, but only 2 arguments were provided") :=
   parse_block_reject _ sn startTok _ rb [] (by decide) rfl _ rfl 40 (by decide) _ rfl
+
+/-! an auto-var leaf as condition: `if (random(4) == 2) { foo }` and `do { foo } while (!specialvar(VAR_A, F))` -/
+
+def exAutoCond : List SStmt :=
+  [.ite (tk .IF "if") lp (.auto (.cmp {} {} "==" .eq ⟨true, "2"⟩) (tk .IDENT "random") lp [tk .INT "4"] [] rp) rp lb
+     [.cmd0 (tk .IDENT "foo")] rb [] .none,
+   .doWhile (tk .DO "do") lb [.cmd0 (tk .IDENT "foo")] rb (tk .WHILE "while") lp
+     (.auto (.neg {} "!") (tk .IDENT "specialvar") lp [tk .IDENT "VAR_A"] [(tk .COMMA ",", [tk .IDENT "F"])] rp) rp]
+
+#guard (Lexer.lexAll "if (random(4) == 2) { foo } do { foo } while (!specialvar(VAR_A, F)) }".toList).map
+    (fun t => (t.type, t.lit)) == (printStmts exAutoCond ++ [rb, tk .EOF ""]).map (fun t => (t.type, t.lit))
+
+/-- The command of the condition takes the next command id: BEFORE the body of an `if`, AFTER the body of a
+`do … while`; it is stored as the preamble of the leaf, which compares the configured variable. -/
+example (sn : String) (startTok : Tok) (fuel : Nat) (hf : 60 ≤ fuel) :
+    (parseBlockStatement exEnvAuto sn startTok fuel [] {}).run
+        { toks := printStmts exAutoCond ++ [rb], eof := tk .EOF "" } =
+      .ok (([.ite (tk .IF "if")
+               (.leaf { type := .VAR, operand := tk .IDENT "VAR_RESULT", operator := .EQ, cmpValue := "2",
+                        preamble := some { id := 0, tok := tk .IDENT "random", name := "random", args := ["4"] } })
+               [cmdS 1 "foo" []] [] none,
+             .doWhile (tk .DO "do") 0
+               (.leaf { type := .VAR, operand := tk .IDENT "VAR_A", operator := .EQ, cmpValue := "0",
+                        preamble := some { id := 3, tok := tk .IDENT "specialvar", name := "specialvar",
+                                           args := ["VAR_A", "F"] } })
+               [cmdS 2 "foo" []]], {}),
+        { toks := [rb], eof := tk .EOF "", nextSid := 1, nextCmdId := 4 }) :=
+  (parse_block_print exEnvAuto sn startTok exAutoCond rb [] (by decide) rfl _ rfl fuel
+    (Nat.le_trans (by decide) hf) _ {} { nextSid := 1, nextCmdId := 4 } rfl).1
+
+set_option maxRecDepth 10000 in
+/-- A command that is not configured as auto-var command cannot be a condition. -/
+example (sn : String) (startTok : Tok) :
+    (parseBlockStatement {} sn startTok 60 [] {}).run
+        { toks := printStmts exAutoCond ++ [rb], eof := tk .EOF "" } =
+      .error (newParseError (tk .IDENT "random")
+        "left side of binary expression must be var(), flag(), defeated(), or autovar command. Instead, found 'random'") :=
+  parse_block_reject {} sn startTok _ rb [] (by decide) rfl _ rfl 60 (by decide) _ rfl
+
+/-! implicit data: `msgbox("Hi", MSGBOX_NPC)  if (flag(A)) { applymovement(2, moves(walk_up * 2 face_down)) }
+msgbox(ascii "Bye")` in script `Main` -/
+
+open Pory.C10c Pory.C14b in
+def exImp : List SStmt :=
+  [.cmdI (tk .IDENT "msgbox") lp [.str (tk .STRING "Hi")] [(tk .COMMA ",", [.tok (tk .IDENT "MSGBOX_NPC")])] rp,
+   .ite (tk .IF "if") lp (cond (.flagBare z false "A")) rp lb
+     [.cmdI (tk .IDENT "applymovement") lp [.tok (tk .INT "2")]
+       [(tk .COMMA ",", [.moves (tk .MOVES "moves") lp
+          [.stepMul (tk .IDENT "walk_up") (tk .MUL "*") (tk .INT "2"), .step (tk .IDENT "face_down")] rp])] rp]
+     rb [] .none,
+   .cmdI (tk .IDENT "msgbox") lp [.tstr (tk .STRINGTYPE "ascii") (tk .STRING "Bye")] [] rp]
+
+#guard (Lexer.lexAll ("msgbox(\"Hi\", MSGBOX_NPC) if (flag(A)) { applymovement(2, moves(walk_up * 2 face_down)) } " ++
+    "msgbox(ascii\"Bye\") }").toList).map (fun t => (t.type, t.lit)) ==
+  (printStmts exImp ++ [rb, tk .EOF ""]).map (fun t => (t.type, t.lit))
+
+/-- The string / `moves()` arguments become EMPTY arguments of the commands (patched later with the labels);
+the implicit data lists them in source order with command id, argument position, terminated text / expanded
+steps and the script name. -/
+example (startTok : Tok) (fuel : Nat) (hf : 80 ≤ fuel) :
+    ∃ imp, (parseBlockStatement {} "Main" startTok fuel [] {}).run
+        { toks := printStmts exImp ++ [rb], eof := tk .EOF "" } =
+      .ok (([cmdS 0 "msgbox" ["", "MSGBOX_NPC"],
+             .ite (tk .IF "if") (flagLeaf .FLAG "A" "TRUE") [cmdS 1 "applymovement" ["2", ""]] [] none,
+             cmdS 2 "msgbox" [""]], imp),
+        { toks := [rb], eof := tk .EOF "", nextCmdId := 3 }) ∧
+      imp.texts.map (fun x => (x.cmdId, x.argPos, x.text.lit, x.stringType, x.scriptName)) =
+        [(0, 0, "Hi$", "", "Main"), (2, 0, "Bye\\0", "ascii", "Main")] ∧
+      imp.movements.map (fun m => (m.cmdId, m.argPos, m.movements.map (·.lit), m.scriptName)) =
+        [(1, 1, ["walk_up", "walk_up", "face_down"], "Main")] :=
+  ⟨_, (parse_block_print {} "Main" startTok exImp rb [] (by decide) rfl _ rfl fuel
+    (Nat.le_trans (by decide) hf) _ _ { nextCmdId := 3 } rfl).1, by decide, by decide⟩
 
 end Example
 
